@@ -188,6 +188,9 @@ Eval(g, e, inp, st) ==
     [] e.k = "istr"  -> Here(MatchesAtCI(inp, pos, e.s), Len(e.s))
     [] e.k = "range" -> Here(pos < Len(inp) /\ InRange(inp[pos + 1], e.lo, e.hi), 1)
     [] e.k = "cls"   -> Here(pos < Len(inp) /\ InClass(e.n, inp[pos + 1]), 1)
+    \* a Unicode property class: opaque here; the trace supplies its extension over the
+    \* characters that occur (membership is a function of (rule, code point), C12)
+    [] e.k = "cset"  -> Here(pos < Len(inp) /\ (\E i \in 1..Len(e.cs) : e.cs[i] = inp[pos + 1]), 1)
     [] e.k = "any"   -> Here(pos < Len(inp), 1)
     [] e.k = "soi"   -> Here(pos = 0, 0)
     [] e.k = "eoi"   -> IF pos # Len(inp) THEN FailR
